@@ -343,7 +343,28 @@ int ChainSim::MineOn(int parent, int ntx, uint64_t txseed, int defect, int bound
             }
             break;
         case D_DUP_INPUT:
-            if (auto c = one_input(any)) { add_tx({{c->op, c->coin}, {c->op, c->coin}}, {CTxOut(c->coin.value, kr.Spk(SK::P2WPKH, 0))}, 0, 2); ctx.probe("defect_dup_input"); }
+            if (auto c = one_input(any)) {
+                // the same outpoint twice: adjacent [A,A], or with another input in between - preferably a sibling output of the same
+                // transaction ([H:0, H:1, H:0]) - or [B,A,A]
+                std::vector<TxIn> ins{{c->op, c->coin}};
+                const int shape = (int)r.below(4);
+                if (shape != 0) {
+                    std::optional<Cand> mid;
+                    for (size_t i = 0; i < cands.size() && !mid; ++i)
+                        if (cands[i].op.hash == c->op.hash) mid = take(i);
+                    if (mid) ctx.probe("defect_dup_input_with_sibling_between");
+                    else mid = one_input(any);
+                    if (mid) {
+                        if (shape == 3) ins.insert(ins.begin(), TxIn{mid->op, mid->coin});
+                        else ins.push_back({mid->op, mid->coin});
+                    }
+                }
+                ins.push_back({c->op, c->coin});
+                CAmount tot = 0;
+                for (auto& i : ins) tot += i.coin.value;
+                add_tx(ins, {CTxOut(std::min<CAmount>(tot, MAX_MONEY), kr.Spk(SK::P2WPKH, 0))}, 0, 2);
+                ctx.probe("defect_dup_input");
+            }
             break;
         case D_DOUBLE_SPEND_IN_BLOCK:
             if (auto c = one_input(any)) { simple_spend(*c, 0xffffffff, 0, 2); simple_spend(*c, 0xfffffffe, 0, 1); ctx.probe("defect_double_spend_in_block"); }
